@@ -52,6 +52,7 @@ static void special_real_defaults(Src &s) {
 }
 
 static void run(Src &s) {
+  cleanup_tree(g_scr.dir);  // nothing may leak from a previous (failed) case
   size_t sp = s.weighted({94, 3, 3});
   if (sp == 1) return special_both_null(s);
   if (sp == 2) return special_real_defaults(s);
